@@ -109,6 +109,10 @@ impl Describe for Origin {
 enum Front {
     Wait,
     Forever,
+    /// `for sig in &mut signals { ...; break }` re-entered after every item: each `forever()` is a fresh iterator
+    ForeverBreak,
+    /// wait(), plus a second, lazily drained `pending()` batch handed to a helper thread (Pending is owned and Send)
+    WaitDual,
     Poll,
 }
 
@@ -144,7 +148,8 @@ fn note_item<O: Describe>(item: &O, sh: &Shared) {
 
 fn consumer_wait<E: Exfiltrator>(mut signals: SignalsInfo<E>, front: Front, sh: Arc<Shared>)
 where
-    E::Output: Describe,
+    E::Output: Describe + Send,
+    E::Storage: Sync,
 {
     sh.consumer_ktid.store(crate::sig::gettid(), Ordering::SeqCst);
     match front {
@@ -152,6 +157,33 @@ where
             for item in signals.wait() {
                 note_item(&item, &sh);
             }
+            if signals.is_closed() {
+                break;
+            }
+        },
+        Front::ForeverBreak => loop {
+            let mut it = signals.forever();
+            match it.next() {
+                Some(item) => note_item(&item, &sh),
+                None => break,
+            }
+        },
+        Front::WaitDual => loop {
+            let a = signals.wait();
+            let b = signals.pending();
+            std::thread::scope(|sc| {
+                let sh2 = &sh;
+                sc.spawn(move || {
+                    crate::set_thread(6, class::CONSUMER);
+                    for item in b {
+                        note_item(&item, sh2);
+                    }
+                    director::lib_exit();
+                });
+                for item in a {
+                    note_item(&item, &sh);
+                }
+            });
             if signals.is_closed() {
                 break;
             }
@@ -459,7 +491,8 @@ enum Inst<E: Exfiltrator> {
 fn run_instance<E>(exf: E, ename: &str, front: Front, cfg: &ICfg, rng: &mut Rng, tot: &mut Tot)
 where
     E: Exfiltrator,
-    E::Output: Describe,
+    E::Output: Describe + Send,
+    E::Storage: Sync,
 {
     director::clear_rules();
     evlog::reset();
@@ -806,8 +839,10 @@ pub fn main(args: &[String]) -> i32 {
     let mut tot = Tot::default();
     let t0 = crate::now_ms();
     for i in 0..instances {
-        let front = [Front::Wait, Front::Forever, Front::Poll][((i + seed) % 3) as usize];
-        let which = ((i + seed) / 3) % 3;
+        // 15 combinations (5 front-ends x 3 exfiltrators); the seed only shifts where the rotation starts
+        let idx = (i + seed) % 15;
+        let front = [Front::Wait, Front::Forever, Front::Poll, Front::ForeverBreak, Front::WaitDual][(idx % 5) as usize];
+        let which = idx / 5;
         let name = ["SignalOnly", "WithRawSiginfo", "WithOrigin"][which as usize];
         if !only.is_empty() && !format!("{}:{:?}", name, front).contains(&only) {
             continue;
